@@ -677,15 +677,27 @@ def runPasses (kinds0 : List RawKind) (nl : Array Bool) (fuel : Nat) :
     match (parse fuel).run (PS.new kinds0 kinds nl pass) with
     | none => none
     | some ((), s) =>
-      -- `kinds0` and `pass` index the traced machine state and are never written; the guard makes that a fact the
-      -- theorems can use (it cannot fail: the correspondence would show `model-none`)
-      if s.kinds0 = kinds0 ∧ s.pass = pass then
+      -- `kinds0` and `pass` index the traced machine state and are never written, and `parse` ends by consuming the
+      -- end-of-file token, the last of the pass; the guard makes these facts the theorems can use (it cannot fail:
+      -- the correspondence would show `model-none`)
+      if s.kinds0 = kinds0 ∧ s.pass = pass ∧ pass.length ≤ s.m.passIdx then
         match cementPass s.kinds pass with
         | none => none
         | some kinds' => runPasses kinds0 nl fuel rest kinds' (s.m.lines :: ls) ((pass, s.trace.reverse) :: trs)
       else none
 
 end PFull
+
+def isDirectiveRaw : RawKind → Bool
+  | .rCompilerDirective => true
+  | .rConditionalDirective _ => true
+  | _ => false
+
+/-- the parser retypes words and operators only: a directive keeps its kind and nothing becomes a directive -/
+def dirKindsKept : List RawKind → List RawKind → Bool
+  | [], [] => true
+  | a :: as, b :: bs => ((!isDirectiveRaw a && !isDirectiveRaw b) || a == b) && dirKindsKept as bs
+  | _, _ => false
 
 /-- `consolidate_pass_lines` for every pass in turn -/
 def consolidateAll : List PLine → List (List PLine) → Option (List PLine)
@@ -709,6 +721,8 @@ def parseFileFull (toks : List (RawKind × Bool)) : Option ParseFullOut :=
     | none => none
     | some acc =>
       let finalKinds := kinds.toList
+      -- guard (cannot fail, see `dirKindsKept`): makes "directives keep their kind" a fact the theorems can use
+      if !dirKindsKept kinds0 finalKinds then none else
       let attributed := attributedOf finalKinds passLines
       let dl := directiveLinesGo attributed 0 finalKinds.zipIdx
       match consolidatePass acc dl with
